@@ -628,3 +628,89 @@ Section SignVerify.
     apply str_eqb_neq in Hne. rewrite Hne. reflexivity.
   Qed.
 End SignVerify.
+
+(* ================================================================ 8. the three builders produce signable elements *)
+Lemma signable_intro sp t a c0 rest L ns idv :
+  is_elem c0 = true -> In L decl_sets -> filter is_ns_decl a = L ->
+  lookup_prefix (ctx_of L) sp = Some ns -> (ns =?s ds_ns) && (t =?s "Signature") = false ->
+  quiet (ctx_of L) c0 = true -> count_elems c0 <= 990 ->
+  select_attr "ID" a = Some idv -> select_attr_value "ID" a = idv -> cr_normalise idv = idv ->
+  signable (Elem sp t a (c0 :: rest)) = true.
+Proof.
+  intros He0 HL HLeq ELk Hns HQ Hcnt Hsel Hval Hcr. unfold signable.
+  assert (HS : sub_context default_ctx a = Ok (ctx_of L)) by (rewrite sub_context_filter, HLeq; apply ctx_of_ok; exact HL).
+  rewrite He0, HS, ELk, Hns, HQ. cbn [andb negb].
+  assert (Hex : existsb (list_eqb attr_eqb (filter is_ns_decl a)) decl_sets = true).
+  { rewrite HLeq. cbn [decl_sets In] in HL. destruct HL as [<-|[<-|[<-|[]]]]; reflexivity. }
+  rewrite Hex. apply Nat.leb_le in Hcnt. rewrite Hcnt. cbn [andb].
+  unfold id_of, default_id_attr. cbn [attrs_of]. rewrite Hsel, Hval. unfold cr_free. rewrite Hcr, String.eqb_refl. reflexivity.
+Qed.
+
+Lemma cr_underscore id : cr_normalise id = id -> cr_normalise ("_" ++ id)%string = ("_" ++ id)%string.
+Proof. intros H. change (cr_normalise ("_" ++ id)%string) with ("_" ++ cr_normalise id)%string. rewrite H. reflexivity. Qed.
+
+Ltac signable_case L :=
+  eapply (signable_intro _ _ _ _ _ L ns_protocol);
+  [ reflexivity | cbn [decl_sets In]; tauto | reflexivity | reflexivity | reflexivity
+  | unfold text_kids; match goal with |- context [?v =?s ""] => destruct (v =?s "") end; reflexivity
+  | unfold text_kids; match goal with |- context [?v =?s ""] => destruct (v =?s "") end; cbn; lia
+  | reflexivity | reflexivity | apply cr_underscore; assumption ].
+
+(* for EVERY configuration, message kind, canonicaliser (any prefix list), request id free of U+000D and instant: the
+   element handed to the signer, as the canonicaliser leaves it (P_Sign.canon_apply_message), is signable *)
+Theorem builders_signable c cfg m id now :
+  cr_normalise id = id -> signable (pre_sign_tree c cfg m id now) = true.
+Proof.
+  intros Hid.
+  destruct c as [incl comments | cid]; destruct m as [|nid sidx|st rq]; cbn [pre_sign_tree message_tree].
+  - unfold exc_authn, exc_issuer, xs_root, xs_child.
+    destruct (has_saml incl), (b_force_authn cfg), (b_is_passive cfg); cbn [app];
+      first [ signable_case [saml_decl; samlp_decl] | signable_case [samlp_decl] ].
+  - unfold exc_logout_request, exc_issuer, xs_root, xs_child.
+    destruct (has_saml incl); cbn [app]; first [ signable_case [saml_decl; samlp_decl] | signable_case [samlp_decl] ].
+  - unfold exc_logout_response, exc_issuer, xs_root, xs_child.
+    destruct (has_saml incl); cbn [app]; first [ signable_case [saml_decl; samlp_decl] | signable_case [samlp_decl] ].
+  - rewrite build_authn_request_eq. unfold authn_attrs, issuer_node.
+    destruct (b_force_authn cfg), (b_is_passive cfg); cbn [app]; signable_case [samlp_decl; saml_decl].
+  - rewrite build_logout_request_eq. unfold logout_request_attrs, issuer_node. signable_case [samlp_decl; saml_decl].
+  - rewrite build_logout_response_eq. unfold logout_response_attrs, issuer_node. signable_case [samlp_decl; saml_decl].
+Qed.
+
+Corollary built_elements_signable c cfg id now nid sidx st rq :
+  cr_normalise id = id ->
+  (forall el', canon_apply c (build_authn_request cfg id now) = Ok el' -> signable el' = true) /\
+  (forall el', canon_apply c (build_logout_request cfg id now nid sidx) = Ok el' -> signable el' = true) /\
+  (forall el', canon_apply c (build_logout_response cfg id now st rq) = Ok el' -> signable el' = true).
+Proof.
+  intros Hid. repeat split; intros el' H.
+  - pose proof (canon_apply_message c cfg MAuthn id now) as HM. cbn [message_tree] in HM. rewrite HM in H. inversion H. apply builders_signable; exact Hid.
+  - pose proof (canon_apply_message c cfg (MLogoutRequest nid sidx) id now) as HM. cbn [message_tree] in HM. rewrite HM in H. inversion H. apply builders_signable; exact Hid.
+  - pose proof (canon_apply_message c cfg (MLogoutResponse st rq) id now) as HM. cbn [message_tree] in HM. rewrite HM in H. inversion H. apply builders_signable; exact Hid.
+Qed.
+
+(* the two questions about SignedInfo put to the oracles in the theorems are always defined for a signed signable element *)
+Theorem signed_info_query_defined cx el dv sv el' sg signed sm der :
+  construct_signature cx el (Ok (dv, sv)) = ORet (Ok (el', sg)) ->
+  sign_placement el' sg = ORet (Ok signed) ->
+  signable el' = true ->
+  In (canon_id (cx_canon cx)) c14n_ids ->
+  ctx_certs (cx_keys cx) = Ok [der] -> der <> "" -> dv <> "" -> sv <> "" ->
+  declared_method cx = Some sm ->
+  exists det sa p, si_detached el' sg = Ok det /\ tag_of det = "SignedInfo" /\ si_prep (canon_id (cx_canon cx)) det = Ok (sa, p).
+Proof.
+  intros HCS HPL HSG HCin HCerts Hder Hdv0 Hsv0 Hsm.
+  destruct (signed_shape _ _ _ _ _ _ _ _ _ HCS HPL HSG HCerts Hder Hdv0 Hsv0 Hsm) as (sp & t & a & c0 & rest & -> & -> & ->).
+  destruct (signable_inv _ _ _ _ _ HSG) as (L & ns & He0 & HL & HS & _).
+  set (cid := canon_id (cx_canon cx)) in *.
+  set (uri := if select_attr_value "ID" a =?s "" then "" else ("#" ++ select_attr_value "ID" a)%string).
+  set (hid := digest_id (cx_hash cx)).
+  exists (si_det L (si_el sm cid uri hid dv)), (fst (si_prepared cid (si_det L (si_el sm cid uri hid dv)))),
+         (snd (si_prepared cid (si_det L (si_el sm cid uri hid dv)))).
+  split; [|split].
+  - unfold si_detached. cbn [attrs_of kids_of sig_tree]. apply sub_ctx_ok in HS. rewrite HS. cbn [bind].
+    change (sub_ctx (ctx_of L) [dsdecl]) with (Ok (("ds", ds_ns) :: ctx_of L) : res nsctx). cbn [bind].
+    change (sub_ctx (("ds", ds_ns) :: ctx_of L) [dsdecl]) with (Ok (("ds", ds_ns) :: ("ds", ds_ns) :: ctx_of L) : res nsctx). cbn [bind].
+    apply si_det_ok. exact HL.
+  - destruct (detach_sorted_shape _ _ _ (si_det_ok L sm cid uri hid dv HL)) as [Htag _]. exact Htag.
+  - rewrite <- surjective_pairing. apply (si_prep_ok L sm cid uri hid dv HL HCin).
+Qed.
